@@ -487,36 +487,53 @@ func sameArgs(a, b []int) bool {
 }
 
 // compareLog decides the trace part of the property: exactly the expected user functions, once
-// each, in order; nothing positioned after the first failing position.
+// each, in order; nothing positioned after the first failing position. Every kind of deviation is
+// reported under its own key (an extra call does not hide a missing, repeated, mis-ordered or
+// mis-fed one).
 func (t *T) compareLog(want []ev) bool {
-	got := t.log
+	ok := true
 	cnt := map[int]int{}
-	for _, e := range got {
+	for _, e := range t.log {
 		cnt[e.ID]++
 	}
 	wantIDs := map[int]bool{}
 	for _, e := range want {
 		wantIDs[e.ID] = true
 	}
-	for _, e := range got {
-		if !wantIDs[e.ID] {
-			if t.s.Custom != nil {
-				t.violate("unexpected-user-function-call", fmt.Sprintf("user function %s must not run in this situation (%s); expected calls: %v", evName(e.ID), t.custNote, logStrings(want)))
-			} else {
-				t.violate("callback-after-failure", fmt.Sprintf("user function %s was invoked although a position to its left had already failed; expected calls: %v", evName(e.ID), logStrings(want)))
-			}
-			return false
+	var got []ev // the observed log restricted to the expected user functions
+	extraSeen := false
+	for _, e := range t.log {
+		if wantIDs[e.ID] {
+			got = append(got, e)
+			continue
+		}
+		if extraSeen {
+			continue
+		}
+		extraSeen, ok = true, false
+		if t.s.Custom != nil {
+			t.violate("unexpected-user-function-call", fmt.Sprintf("user function %s must not run in this situation (%s); expected calls: %v", evName(e.ID), t.custNote, logStrings(want)))
+		} else {
+			t.violate("callback-after-failure", fmt.Sprintf("user function %s was invoked although a position to its left had already failed; expected calls: %v", evName(e.ID), logStrings(want)))
 		}
 	}
+	exact := true
 	for _, e := range want {
 		if cnt[e.ID] == 0 {
 			t.violate("callback-not-invoked", fmt.Sprintf("user function %s positioned before the first failure was never invoked; expected calls: %v", evName(e.ID), logStrings(want)))
-			return false
+			ok, exact = false, false
+			break
 		}
+	}
+	for _, e := range want {
 		if cnt[e.ID] > 1 {
 			t.violate("callback-invoked-twice", fmt.Sprintf("user function %s was invoked %d times, expected exactly once; expected calls: %v", evName(e.ID), cnt[e.ID], logStrings(want)))
-			return false
+			ok, exact = false, false
+			break
 		}
+	}
+	if !exact || len(got) != len(want) {
+		return ok
 	}
 	for i := range want {
 		if got[i].ID != want[i].ID {
@@ -540,7 +557,7 @@ func (t *T) compareLog(want []ev) bool {
 			return false
 		}
 	}
-	return true
+	return ok
 }
 
 func (t *T) compareOutcome(x expectation) bool {
